@@ -120,8 +120,7 @@ class Evaluator(PE):
             if len(r) == 1:
                 inherit.append(r[0][0])
         # in-repo callee with star args: try to inline with positional expansion when the starred value is known
-        if isinstance(f, ast.Attribute):
-            pass
+        p.events.append(("star_call", name, tuple(show(i) for i in inherit)))
         r = self.opaque_expr(e, p)
         return [(Sym(r.name, set(r.tags) | set().union(*[set(i.tags) for i in inherit]) if inherit else r.tags, e), p)]
 
